@@ -71,6 +71,26 @@ Local Notation hvrep := (hvrep (ptypes p) CLO).
 Local Notation xrep := (HRep.xrep (ptypes p) CLO jump_length any_int).
 Local Notation xflds := (HRep.xflds (ptypes p) CLO jump_length any_int).
 
+(* the address a + 4k of entry k of a jump table is an address of the image (hclo_ok: the offset added by the repaired
+   add_and_jump does not wrap) *)
+Lemma table_entry_small pcl fresh cls c5 a k c :
+  placed im pcl (([LAB fresh] ++ table_or_nil rv_backend cls fresh) ++ c5) ->
+  PM.find pcl (addr_of im) = Some a -> nth_error cls k = Some c ->
+  a + (if Nat.leb (List.length cls) 1 then 0 else jump_length (N.of_nat k)) < 4611686018427387904 - 32.
+Proof.
+  intros [CA _] AL Hk. destruct (Nat.leb (List.length cls) 1) eqn:LE; [rewrite Z.add_0_r; exact (SMALL _ _ AL)|].
+  assert (Lk : (k < List.length cls)%nat) by (apply nth_error_Some; congruence).
+  unfold table_or_nil in CA. rewrite LE in CA. rewrite <- !app_assoc in CA. cbn [app] in CA.
+  set (full := LAB fresh :: code_table rv_backend cls fresh ++ c5) in *.
+  assert (NJ : nth_error full (1 + k) = Some (JAL ZERO (fresh +++ "_" +++ show_ident (cl_xtor c)))).
+  { unfold full. cbn [Nat.add nth_error]. rewrite nth_error_app1 by (rewrite code_table_length; lia). apply code_table_nth. exact Hk. }
+  pose proof (addr_along im IMG full pcl a CA AL (1 + k)%nat _ NJ) as AJ.
+  assert (SZ : size_of (firstn (1 + k) full) = 4 * Z.of_nat k).
+  { unfold full. cbn [Nat.add firstn size_of isize]. rewrite firstn_app. replace (k - List.length (code_table rv_backend cls fresh))%nat with O by (rewrite code_table_length; lia).
+    cbn [firstn]. rewrite app_nil_r, code_table_size by lia. lia. }
+  rewrite SZ in AJ. unfold jump_length. rewrite nat_N_Z. exact (SMALL _ _ AJ).
+Qed.
+
 (* the kinds of the stored values are those of the bindings of the context suffix *)
 Lemma suffix_kinds rest args he0 fsE hs s i b en :
   hrel (rest ++ args) (he0 ++ fsE) hs s -> List.length he0 = List.length rest ->
@@ -243,10 +263,11 @@ Proof.
       as (pcc & lcl & cl1 & lcb & cb & lcb' & _ & _ & LD & BD' & PLb & LAND).
     exists pcc, lcl, cl1, lcb, cb, lcb'. split; [exact LD|]. split; [exact BD'|]. split; [exact PLb|].
     pose proof (nth_error_In _ _ Hk) as Hin.
-    split; [|split; [|split]].
+    split; [|split; [|split; [|split]]].
     - unfold lin_clauses_cr in LCc. rewrite forallb_forall in LCc. apply LCc. exact Hin.
     - unfold ann_clauses_cr in ANC. rewrite forallb_forall in ANC. apply ANC. exact Hin.
     - unfold clauses_k in CH. rewrite forallb_forall in CH. specialize (CH cl0 Hin). exact CH.
+    - exact (table_entry_small pcl fresh cls c5 a k cl0 PLL AL Hk).
     - intros NZ. apply LAND. left. exact NZ. }
   (* the code address *)
   assert (T2 : rtpos Snd (List.length rest) = Ok tmpv) by (apply (rvt_fresh rest (mkb v Cns (Decl tn)) tmpv NDn TV)).
